@@ -164,6 +164,20 @@ func (x *Exec) callFn(fr *Frame, st *State, fn *ssa.Function, args []Value, bind
 		full = o.String()
 	}
 	x.logCall(st, strings.ReplaceAll(full, modulePrefix, ""), args)
+	if fr.depth == 0 && !st.dry && !x.inInit {
+		if tfc := x.contracts[contractKey(x.top)]; tfc != nil {
+			for _, oc := range tfc.OnCall {
+				if oc.Type == strings.ReplaceAll(full, modulePrefix, "") {
+					bound := map[string]Value{}
+					for i, a := range args {
+						bound[fmt.Sprintf("arg%d", i)] = a
+					}
+					g := x.evalSpec(&specScope{x: x, fr: fr, st: st, old: fr.entry, bound: bound}, oc.Expr)
+					x.oblige(fr, st, "call", x.src(fr.fn, pos, "call")+":"+oc.Label, pos, g.L[0])
+				}
+			}
+		}
+	}
 	if x.inInit && fn.Name() == "init" && fn.Pkg != x.initPkg {
 		return []Outcome{{St: st, Kind: OutReturn}}
 	}
@@ -183,6 +197,10 @@ func (x *Exec) callFn(fr *Frame, st *State, fn *ssa.Function, args []Value, bind
 			rets = append(rets, x.freshValue(st, "pure_"+fn.Name(), fn.Signature.Results().At(i).Type()))
 		}
 		x.c.note("assumed: %s only reads its arguments (result unconstrained)", full)
+		if full == "reflect.TypeOf" && len(rets) == 1 {
+			st.assume(Not(Eq(rets[0].L[0], IntLit(0))))
+			x.c.note("assumed: reflect.TypeOf of a value obtained from a valid reflect.Value is non-nil")
+		}
 		if ctorFuncs[full] && len(rets) == 2 {
 			// library constructor convention: a nil error comes with a non-nil result
 			st.assume(Implies(Eq(rets[1].L[0], IntLit(0)), Not(Eq(rets[0].L[0], IntLit(0)))))
@@ -752,11 +770,20 @@ func (x *Exec) havocModifies(cfr *Frame, st *State, pre *State, target Expr) {
 func (x *Exec) applyDyn(fr *Frame, st *State, fc *FuncContract, caller *Frame, where string) {
 	for _, pname := range sortedKeys(fc.Dyn) {
 		tname := fc.Dyn[pname]
-		sv, ok := fr.names[pname]
-		if !ok {
-			unsup("dyn: unknown parameter %s", pname)
+		var v Value
+		if sv, ok := fr.names[pname]; ok {
+			v = fr.env[sv]
+		} else {
+			// an expression such as ds.Reader (an interface-typed field)
+			e, err := ParseExpr(pname)
+			if err != nil {
+				unsup("dyn: %v", err)
+			}
+			v = x.evalSpec(&specScope{x: x, fr: fr, st: st, old: st}, e)
 		}
-		v := fr.env[sv]
+		if len(v.L) != 2 {
+			unsup("dyn: %s is not an interface value", pname)
+		}
 		T := x.lookupType(tname)
 		if T == nil {
 			unsup("dyn: unknown type %s", tname)
